@@ -676,6 +676,14 @@ impl Gen {
                     5 => calls.push(ChmodCall::Secure),
                     _ => calls.push(ChmodCall::Sym(self.sym(rng))),
                 }
+                if rng.chance(1, 8) {
+                    // an octal mode for one kind next to a symbolic expression for the other
+                    calls.push(match rng.below(3) {
+                        0 => ChmodCall::Dirs(self.mode(rng)),
+                        1 => ChmodCall::Files(self.mode(rng)),
+                        _ => ChmodCall::Sym(self.sym(rng)),
+                    });
+                }
                 if rng.chance(1, 3) {
                     calls.push(ChmodCall::Follow);
                 }
